@@ -84,8 +84,10 @@ func vfJO(kv ...any) *vfJ {
 var c14Scalars = []string{`null`, `true`, `false`, `0`, `-0`, `1.5`, `1e3`, `1E-2`, `12345678901234567890`, `""`, `"a"`, `"é"`, `"é"`,
 	`"a\"b"`, `"\n"`, `"<&>"`, `"---"`, `"[TestA - 2]"`, `"\\u003c"`, `"a\\u0026b"`, `" "`, `"/-/-/-/"`,
 	// strings whose CONTENT is itself a JSON document (they are strings all the same), and an integer beyond 2^53
-	`"123"`, `"true"`, `"null"`, `"[]"`, `"{\"b\":1}"`, `" [1] "`, `9007199254740993`}
-var c14Keys = []string{`"a"`, `"b"`, `"A"`, `"é"`, `"a.b"`, `""`, `"a b"`, `"---"`, `"[TestA - 2]"`}
+	`"123"`, `"true"`, `"null"`, `"[]"`, `"{\"b\":1}"`, `" [1] "`, `9007199254740993`,
+	// per cent signs: the text is data, never a format
+	`"50%"`, `"%s items"`, `"100%% %d%v"`}
+var c14Keys = []string{`"a"`, `"b"`, `"A"`, `"é"`, `"a.b"`, `""`, `"a b"`, `"---"`, `"[TestA - 2]"`, `"a%b"`}
 
 func c14Docs(thorough bool) []*vfJ {
 	var docs []*vfJ
